@@ -21,7 +21,7 @@ func c12RMInv(r *RandomMap[uint8, uint8]) bool {
 	return true
 }
 
-//verif:h prop=C12 p.ops=3/4 cover=set,delete,randomkey,unique native=0 runs=2000000 timeout=200/900
+//verif:h prop=C12 p.ops=3/4 cover=set,delete,randomkey,unique native=0 runs=2000000 timeout=900/900
 func H_C12_randommap() {
 	r := New[uint8, uint8]()
 	var mk, mv []uint8
